@@ -40,6 +40,7 @@ DEFAULT_SPEC = {
     "equal_len": 0,        # make two chromosomes equally long
     "chr_order": 0,        # permutation index for chromosome length ranking (pads tails)
     "tie_perm": 0,         # permutation seed for record order among equal positions
+    "novel_notail": 0,     # 1: reads of unannotated isoforms and of single-exon genes have no polyA tail (the rest of the library has: fraction >= 70%)
     "exp_polya": None,     # per-experiment list: 0 = this experiment's reads are polyA-trimmed
     "gene_naming": 0,      # 0: G<n>; 1: zg<n> (lower case, sorts after novel_gene_); 2: si:dkey-<n>
     "group_naming": 0,     # 0: grp<n>/g<nn>; 1: G<n> (sorts before NA); 2: <n>x (digit first); 3: mixed case; 4: numbers; 5: blanks at the ends
@@ -49,7 +50,7 @@ DEFAULT_SPEC = {
     "intergenic_multi": 0, # k reads whose only usable alignments are tied multi-exon secondaries in gene-free loci
     "deep_gene": 0,        # 1: one gene gets ~230 reads (200/20 per isoform, 3 novel, 10 truncated); 2: a dedicated six-exon gene
                            #    with that coverage, an unannotated exon-skipping isoform with 3 reads and 10 tail-less reads that fit both
-    "long_locus": 0,       # 1: extra chromosome chrL with a > 64 kb read island that IsoQuant splits at a coverage valley; 2: the
+    "long_locus": 0,       # (4: as 1, both long genes on '+', read-through reads across the valley) 1: extra chromosome chrL with a > 64 kb read island that IsoQuant splits at a coverage valley; 2: the
                            #    valley gene's first exon spans the split point and two more of its reads start right of it
     "exp_bams": None,      # per-experiment number of files (overrides n_bams)
     "novel_one_file": 0,   # reads of unannotated isoforms all go to the first file of their experiment
@@ -415,7 +416,7 @@ def generate(spec):
         l2.isoforms = [(l2.gid + ".t1", [0, 1, 2, 3])]
         gcount += 1
         # small annotated gene sitting in the coverage valley between the two long genes: its single read straddles the split
-        if s["long_locus"] >= 2:
+        if s["long_locus"] in (2, 3):
             # variant 2: the first exon of the valley gene spans the split point, its only intron lies right of it; a second
             # read of that isoform starts right of the split point (the isoform is seen in both processing regions)
             lb = Gene(gene_name(s, gcount), "chrL", "+", [(36240 + o, 36900 + o), (36990 + o, 37080 + o)])
@@ -424,8 +425,30 @@ def generate(spec):
         lb.isoforms = [(lb.gid + ".t1", [0, 1])]
         long_genes = [l1, l2, lb]
         genes.append(long_genes)
-        if s["long_locus"] >= 3:
+        if s["long_locus"] == 3:
             _plant_sites(chroms[-1][1], [lb.exons[1], (lb.exons[1][1] + 330, lb.exons[1][1] + 480)], "+", canonical=True)
+    rt_genes = []
+    if s["long_locus"] == 4:
+        # variant 4 (in addition to chrL): chromosome chrR with two small same-strand genes 38 kb apart, nothing between them, and
+        # read-through reads that join them: one read island > 32 kb with a coverage valley, the bridging alignment is handed to
+        # both processing regions and meets another gene in each
+        rs = random.Random("%d/seq/chrR" % s["seed"])
+        RL = 45000 + rg.randrange(200)
+        while RL in lens or RL in [len(sq) for _, sq in chroms]:
+            RL += 1
+        chroms.append(["chrR", [BASES[rs.randrange(4)] for _ in range(RL)]])
+        names.append("chrR")
+        gcount += 1
+        ga = Gene(gene_name(s, gcount), "chrR", "+", [(1001, 1200), (2001, 2300)])
+        ga.isoforms = [(ga.gid + ".t1", [0, 1])]
+        gcount += 1
+        gb = Gene(gene_name(s, gcount), "chrR", "+", [(40001, 40200), (41001, 41300)])
+        gb.isoforms = [(gb.gid + ".t1", [0, 1])]
+        for g_ in (ga, gb):
+            g_.no_extra = True
+            g_.no_trunc = True
+        rt_genes = [ga, gb]
+        genes.append(rt_genes)
     pile_gene = None
     if s["pile"]:
         rs = random.Random("%d/seq/chrP" % s["seed"])
@@ -598,6 +621,10 @@ def generate(spec):
                 else:
                     blocks = [(a0 + ds, b0)] + list(blocks[1:-1]) + [(a1, b1 - de)]
                 polya = bool(s["polya"]) and (k % 5 != 4)
+                if (is_novel or len(g.exons) == 1) and s.get("novel_notail"):
+                    # the reads of unannotated isoforms carry no tail: such a model is reported only when the library-wide tail
+                    # statistics say that tails are not required
+                    polya = False
                 rid += 1
                 mq = 60
                 if s["mapq_mix"] and k % 3 == 1:
@@ -665,6 +692,14 @@ def generate(spec):
                 blocks = [g.outside] + [g.exons[i] for i in g.isoforms[0][1]]
                 reads.append({"id": "r%04d" % rid, "src": "novel:%s:outside" % g.gid, "gene": g.gid, "kind": "outside_exon",
                               "records": [mk_record(g.chrom, blocks, g.strand, bool(s["polya"]))]})
+            if s["outside_exon"] >= 2 and not getattr(g, "no_trunc", False):
+                # a later read of the same locus that sticks out of the annotated span on the OTHER side, and less far: the
+                # reference window of the locus has to grow with every such read, not to be rebuilt from the gene span
+                rid += 1
+                ex = [g.exons[i] for i in g.isoforms[0][1]]
+                blocks = [(ex[0][0] + 20, ex[0][1])] + ex[1:-1] + [(ex[-1][0], ex[-1][1] + 35)]
+                reads.append({"id": "r%04d" % rid, "src": g.isoforms[0][0], "gene": g.gid, "kind": "sticks_out_downstream",
+                              "records": [mk_record(g.chrom, blocks, g.strand, False)]})
     if long_genes:
         l1, l2, lb = long_genes
         e1 = l1.exons[-1][1]
@@ -690,13 +725,13 @@ def generate(spec):
             rid += 1
             reads.append({"id": "r%04d" % rid, "src": kind, "gene": None, "kind": kind,
                           "records": [mk_record("chrL", [(max(1, a), b) for a, b in blocks], "+", False)]})
-        if s["long_locus"] >= 2:
+        if s["long_locus"] in (2, 3):
             for k in range(2):
                 rid += 1
                 blocks = [(lb.exons[0][0] + 480 + 9 * k, lb.exons[0][1]), lb.exons[1]]
                 reads.append({"id": "r%04d" % rid, "src": lb.isoforms[0][0], "gene": lb.gid, "kind": "valley_gene_right_of_split",
                               "records": [mk_record("chrL", blocks, "+", bool(s["polya"]))]})
-            if s["long_locus"] >= 3:
+            if s["long_locus"] == 3:
                 # variant 3: an unannotated isoform of the valley gene, seen in the second region only, with an extra exon beyond
                 # the annotated end of the gene (the gene record is written when the first region is dumped)
                 e3 = (lb.exons[1][1] + 330, lb.exons[1][1] + 480)
@@ -706,6 +741,12 @@ def generate(spec):
                     blocks = [(lb.exons[0][0] + 500 + 7 * k, lb.exons[0][1]), lb.exons[1], e3]
                     reads.append({"id": "r%04d" % rid, "src": "novel:%s:downstream" % lb.gid, "gene": lb.gid, "kind": "valley_gene_novel_downstream",
                                   "records": [mk_record("chrL", blocks, "+", bool(s["polya"]))]})
+    if rt_genes:
+        ga, gb = rt_genes
+        for k in range(1):          # one bridging read: the valley stays a valley (coverage 1)
+            rid += 1
+            reads.append({"id": "r%04d" % rid, "src": "readthrough_across_split", "gene": None, "kind": "readthrough_across_split",
+                          "records": [mk_record("chrR", list(ga.exons) + [gb.exons[0], (gb.exons[1][0], gb.exons[1][1] - 11 * k)], "+", False)]})
     if pile_gene is not None:
         extra = []
         for k in range(3):
